@@ -36,6 +36,57 @@ pub fn dispatch(cmd: &str, args: &Args) -> Option<i32> {
 
 const UNITY: i32 = 1 << 20;
 
+/// A call of the code under test that does not return is data too: the watchdog writes the
+/// in-flight call to `<out>.hang` and ends the process with exit code 3 (the driver turns that
+/// into an event with a "panic" field, which no specification action accepts).
+mod watch {
+    use std::sync::atomic::{AtomicU64, Ordering};
+    use std::sync::Mutex;
+    static BEAT: AtomicU64 = AtomicU64::new(0);
+    static CUR: Mutex<String> = Mutex::new(String::new());
+
+    pub fn start(out: Option<&str>, limit_s: f64) {
+        let path = format!("{}.hang", out.unwrap_or("c17"));
+        let _ = std::fs::remove_file(&path);
+        std::thread::spawn(move || {
+            let mut last = BEAT.load(Ordering::Relaxed);
+            let mut idle = 0.0;
+            loop {
+                std::thread::sleep(std::time::Duration::from_millis(250));
+                let b = BEAT.load(Ordering::Relaxed);
+                if b != last {
+                    last = b;
+                    idle = 0.0;
+                    continue;
+                }
+                idle += 0.25;
+                if idle >= limit_s {
+                    let cur = CUR.lock().map(|c| c.clone()).unwrap_or_default();
+                    if !cur.is_empty() {
+                        let _ = std::fs::write(&path, cur);
+                        std::process::exit(3);
+                    }
+                    idle = 0.0;
+                }
+            }
+        });
+    }
+    /// Announce the call about to be made (its inputs as an event without result).
+    pub fn call(desc: impl FnOnce() -> String) {
+        if let Ok(mut c) = CUR.lock() {
+            *c = desc();
+        }
+        BEAT.fetch_add(1, Ordering::Relaxed);
+    }
+    /// The harness is between calls (writing output, generating inputs).
+    pub fn idle() {
+        if let Ok(mut c) = CUR.lock() {
+            c.clear();
+        }
+        BEAT.fetch_add(1, Ordering::Relaxed);
+    }
+}
+
 fn codes(s: &str) -> Vec<u8> {
     s.bytes().collect()
 }
@@ -103,6 +154,9 @@ fn read_back(data: &str) -> Result<(i32, Warn), String> {
 // ------------------------------------------------------------------------------------------
 
 fn print_event(out: &mut Out, v: i32) {
+    if v & 0x3FF == 0 || v & 0xF_FFFF <= 1 {
+        watch::call(|| format!("{{\"fn\":\"print\",\"v\":{v},\"near\":1}}"));
+    }
     match display(v) {
         Ok(s) => {
             let mut line = String::with_capacity(96);
@@ -128,6 +182,7 @@ fn table_fractions(stride: u32, offset: u32) -> Vec<u32> {
 
 pub fn table(args: &Args) -> i32 {
     quiet_panics();
+    watch::start(args.str("out"), args.num("hang_s", 20.0));
     let stride: u32 = args.num("stride", 64);
     let offset: u32 = args.num("offset", 0);
     let mut out = Out::new(args.str("out"));
@@ -239,6 +294,7 @@ fn random_decimal(rng: &mut Rng) -> String {
 }
 
 fn rt_event(v: i32) -> Value {
+    watch::call(|| json!({"fn":"rt","v":v}).to_string());
     match lower_data(v) {
         Err(p) => json!({"fn":"rt","v":v,"panic":p}),
         Ok(data) => match read_back(&data) {
@@ -249,6 +305,7 @@ fn rt_event(v: i32) -> Value {
 }
 
 fn parse_event(data: &str) -> Value {
+    watch::call(|| json!({"fn":"parse","s":codes(data)}).to_string());
     match read_back(data) {
         Err(p) => json!({"fn":"parse","s":codes(data),"panic":p}),
         Ok((back, w)) => json!({"fn":"parse","s":codes(data),"back":back,"toobig":w.toobig,"junk":w.junk,"other":w.other}),
@@ -257,6 +314,7 @@ fn parse_event(data: &str) -> Value {
 
 pub fn fix(args: &Args) -> i32 {
     quiet_panics();
+    watch::start(args.str("out"), args.num("hang_s", 20.0));
     let seed: u64 = args.num("seed", 1);
     let n: usize = args.num("n", 2000);
     let nparse: usize = args.num("nparse", 2000);
@@ -314,6 +372,7 @@ pub fn fix(args: &Args) -> i32 {
             };
             file.char_dimens.insert(Char(c), d);
         }
+        watch::call(|| json!({"fn":"rtfile","v":0,"where":"a whole pl::File"}).to_string());
         let r = catch(|| {
             let text = format!("{}", file.display(3, CharDisplayFormat::Octal));
             tfm::pl::File::from_pl_source_code(&text)
@@ -353,6 +412,7 @@ pub fn fix(args: &Args) -> i32 {
 
 pub fn scaled(args: &Args) -> i32 {
     quiet_panics();
+    watch::start(args.str("out"), args.num("hang_s", 20.0));
     let seed: u64 = args.num("seed", 1);
     let n: usize = args.num("n", 20000);
     let mut rng = Rng::new(seed ^ 0xC175);
@@ -379,6 +439,7 @@ pub fn scaled(args: &Args) -> i32 {
     }
     let mut emit = |v: i64, ds: i64| {
         let (v, ds) = (v as i32, ds as i32);
+        watch::call(|| json!({"fn":"scaled","v":v,"ds":ds}).to_string());
         match catch(|| FixWord(v).to_scaled(FixWord(ds))) {
             Ok(r) => out.line(&json!({"fn":"scaled","v":v,"ds":ds,"r":r.0})),
             Err(p) => out.line(&json!({"fn":"scaled","v":v,"ds":ds,"panic":panic_text(p)})),
@@ -415,7 +476,10 @@ pub fn scaled(args: &Args) -> i32 {
 fn compress_event(out: &mut Out, vals: &[i32], m: u8) {
     let input: Vec<FixWord> = vals.iter().map(|&v| FixWord(v)).collect();
     let sv: Vec<i32> = vals.iter().copied().collect::<BTreeSet<i32>>().into_iter().collect();
-    match catch(|| tfm::compress(&input, m)) {
+    watch::call(|| json!({"fn":"compress","vals":vals,"m":m}).to_string());
+    let r = catch(|| tfm::compress(&input, m));
+    watch::idle();
+    match r {
         Err(p) => out.line(&json!({"fn":"compress","vals":vals,"m":m,"panic":panic_text(p)})),
         Ok((res, map)) => {
             let res: Vec<i32> = res.iter().map(|f| f.0).collect();
@@ -529,6 +593,7 @@ fn gen_values(rng: &mut Rng, maxlen: usize) -> Vec<i32> {
 
 pub fn compress(args: &Args) -> i32 {
     quiet_panics();
+    watch::start(args.str("out"), args.num("hang_s", 20.0));
     let seed: u64 = args.num("seed", 1);
     let n: usize = args.num("n", 1000);
     let maxlen: usize = args.num("maxlen", 300);
@@ -587,6 +652,11 @@ pub fn compress(args: &Args) -> i32 {
 // ------------------------------------------------------------------------------------------
 
 fn nl_event(out: &mut Out, edges: &[(u8, u8)], absent: &BTreeSet<u8>, drop: bool, probe: &[u8]) {
+    watch::call(|| {
+        let e: Vec<[u8; 2]> = edges.iter().map(|&(a, b)| [a, b]).collect();
+        let a: Vec<u8> = absent.iter().copied().collect();
+        json!({"fn":"nl","edges":e,"absent":a,"drop":drop as u8,"probe":probe}).to_string()
+    });
     let r = catch(|| {
         let (prog, warnings) = NextLargerProgram::new(
             edges.iter().map(|&(a, b)| (Char(a), Char(b))),
@@ -599,6 +669,7 @@ fn nl_event(out: &mut Out, edges: &[(u8, u8)], absent: &BTreeSet<u8>, drop: bool
             .collect();
         (chains, warnings)
     });
+    watch::idle();
     let edges_j: Vec<[u8; 2]> = edges.iter().map(|&(a, b)| [a, b]).collect();
     let absent_j: Vec<u8> = absent.iter().copied().collect();
     match r {
@@ -618,8 +689,60 @@ fn nl_event(out: &mut Out, edges: &[(u8, u8)], absent: &BTreeSet<u8>, drop: bool
     }
 }
 
+/// The same links through the two pipelines that use the program: a tfm::File validated the way
+/// TFtoPL does (`validate_and_fix`, links to missing characters dropped) and a PL source read the
+/// way PLtoTF does (`pl::File::from_pl_source_code`, missing characters created).  Observed: the
+/// list tags that remain.
+fn nltags_event(out: &mut Out, path: &str, edges: &[(u8, u8)], absent: &BTreeSet<u8>) {
+    let edges_j: Vec<[u8; 2]> = edges.iter().map(|&(a, b)| [a, b]).collect();
+    let absent_j: Vec<u8> = absent.iter().copied().collect();
+    watch::call(|| json!({"fn":"nltags","path":path,"edges":edges_j,"absent":absent_j}).to_string());
+    let present: BTreeSet<u8> = edges.iter().flat_map(|&(a, b)| [a, b]).filter(|c| !absent.contains(c)).collect();
+    let r = catch(|| {
+        if path == "tfm" {
+            let mut file = tfm::File::default();
+            file.widths = vec![FixWord::ZERO, FixWord::ONE];
+            file.smallest_char = Char(present.iter().next().copied().unwrap_or(1));
+            for &c in &present {
+                file.char_dimens.insert(
+                    Char(c),
+                    tfm::CharDimensions {
+                        width_index: tfm::WidthIndex::Valid(1.try_into().unwrap()),
+                        height_index: 0,
+                        depth_index: 0,
+                        italic_index: 0,
+                    },
+                );
+            }
+            for &(a, b) in edges {
+                file.char_tags.insert(Char(a), tfm::CharTag::List(Char(b)));
+            }
+            let _ = file.validate_and_fix();
+            file.char_tags.iter().filter_map(|(c, t)| t.list().map(|n| [c.0, n.0])).collect::<Vec<[u8; 2]>>()
+        } else {
+            let links: std::collections::BTreeMap<u8, u8> = edges.iter().copied().collect();
+            let mut text = String::new();
+            for &c in &present {
+                write!(text, "(CHARACTER O {c:o} (CHARWD R 1.0)").unwrap();
+                if let Some(n) = links.get(&c) {
+                    write!(text, " (NEXTLARGER O {n:o})").unwrap();
+                }
+                text.push_str(")\n");
+            }
+            let (file, _) = tfm::pl::File::from_pl_source_code(&text);
+            file.char_tags.iter().filter_map(|(c, t)| t.list().map(|n| [c.0, n.0])).collect::<Vec<[u8; 2]>>()
+        }
+    });
+    watch::idle();
+    match r {
+        Ok(tags) => out.line(&json!({"fn":"nltags","path":path,"edges":edges_j,"absent":absent_j,"tags":tags})),
+        Err(p) => out.line(&json!({"fn":"nltags","path":path,"edges":edges_j,"absent":absent_j,"panic":panic_text(p)})),
+    }
+}
+
 pub fn nl(args: &Args) -> i32 {
     quiet_panics();
+    watch::start(args.str("out"), args.num("hang_s", 20.0));
     let seed: u64 = args.num("seed", 1);
     let k: usize = args.num("k", 5);
     let ka: usize = args.num("ka", 4);
@@ -649,6 +772,9 @@ pub fn nl(args: &Args) -> i32 {
                 edges.reverse();
             }
             nl_event(&mut out, &edges, &none, true, &probe);
+            if !edges.is_empty() && code % 5 == emb as u64 {
+                nltags_event(&mut out, if code % 2 == 0 { "tfm" } else { "pl" }, &edges, &none);
+            }
         }
     }
     // non-existent characters: every functional graph on ka characters, every set of absent
@@ -675,6 +801,10 @@ pub fn nl(args: &Args) -> i32 {
                 let absent: BTreeSet<u8> = free.iter().enumerate().filter(|(i, _)| mask >> i & 1 == 1).map(|(_, &c)| c).collect();
                 for drop in [false, true] {
                     nl_event(&mut out, &edges, &absent, drop, &probe);
+                }
+                if (code + mask as u64) % 4 == 0 {
+                    nltags_event(&mut out, "tfm", &edges, &absent);
+                    nltags_event(&mut out, "pl", &edges, &absent);
                 }
             }
         }
@@ -729,6 +859,7 @@ pub fn nl(args: &Args) -> i32 {
             }
         }
         nl_event(&mut out, &edges, &absent, i % 8 != 7, &all);
+        nltags_event(&mut out, if i % 2 == 0 { "tfm" } else { "pl" }, &edges, &absent);
     }
     0
 }
@@ -923,6 +1054,7 @@ pub fn sweep(args: &Args) -> i32 {
 
 pub fn one(args: &Args) -> i32 {
     quiet_panics();
+    watch::start(args.str("out"), args.num("hang_s", 20.0));
     let text = std::fs::read_to_string(args.req("in")).expect("read event");
     let e: Value = serde_json::from_str(&text).expect("event json");
     let mut out = Out::new(args.str("out"));
@@ -944,6 +1076,14 @@ pub fn one(args: &Args) -> i32 {
         "compress" => {
             let vals: Vec<i32> = e["vals"].as_array().map(|a| a.iter().map(|x| x.as_i64().unwrap_or(0) as i32).collect()).unwrap_or_default();
             compress_event(&mut out, &vals, int("m") as u8);
+        }
+        "nltags" => {
+            let edges: Vec<(u8, u8)> = e["edges"]
+                .as_array()
+                .map(|a| a.iter().map(|p| (p[0].as_u64().unwrap_or(0) as u8, p[1].as_u64().unwrap_or(0) as u8)).collect())
+                .unwrap_or_default();
+            let absent: BTreeSet<u8> = bytes("absent").into_iter().collect();
+            nltags_event(&mut out, e["path"].as_str().unwrap_or("tfm"), &edges, &absent);
         }
         "nl" => {
             let edges: Vec<(u8, u8)> = e["edges"]
